@@ -39,7 +39,25 @@ Proof. unfold veqb. destruct (excluded_middle_informative (a = b)); split; auto;
 Lemma veqb_refl a : veqb a a = true.
 Proof. now apply veqb_true. Qed.
 
-(* value of a sort *)
+(* keys of a sort: the keys of the values of that sort (all values of an array sort have the key
+   KNone) *)
+Definition key_sortb (k : key) (t : ty) : bool :=
+  match k, t with
+  | KBool _, TBool => true
+  | KInt _, TInt => true
+  | KReal _, TReal => true
+  | KStr _, TStr => true
+  | KBV w x, TBV w' => (w =? w')%Z && (0 <=? x)%Z && (x <? 2 ^ w')%Z
+  | KU s _, TUser s' _ => String.eqb s s'
+  | KNone, TArr _ _ => true
+  | _, _ => false
+  end.
+(* what an array value holds at the keys outside its index sort *)
+Definition junk : value := VBool false.
+
+(* value of a sort.  An array value is a function on ALL keys; it is canonical outside its index
+   sort ([junk] there), so that Leibniz equality of array values of a sort is extensional equality
+   on the index sort (SMT-LIB's ArraysEx) *)
 Fixpoint has_ty (v : value) (t : ty) {struct t} : Prop :=
   match t, v with
   | TBool, VBool _ => True
@@ -48,7 +66,7 @@ Fixpoint has_ty (v : value) (t : ty) {struct t} : Prop :=
   | TStr, VStr _ => True
   | TBV w, VBV w' x => w' = w /\ (0 <= x < 2 ^ w)%Z
   | TUser n _, VU n' _ => n' = n
-  | TArr i e, VArr f => forall k, has_ty (f k) e
+  | TArr i e, VArr f => forall k, if key_sortb k i then has_ty (f k) e else f k = junk
   | _, _ => False
   end.
 
@@ -82,7 +100,7 @@ Fixpoint default_val (t : ty) : value :=
   match t with
   | TBool => VBool false | TInt => VInt 0 | TReal => VReal 0 | TStr => VStr []
   | TBV w => VBV w 0
-  | TArr _ e => VArr (fun _ => default_val e)
+  | TArr i e => VArr (fun k => if key_sortb k i then default_val e else junk)
   | TUser n _ => VU n 0
   | TFun _ _ => VBool false
   end.
@@ -90,7 +108,7 @@ Lemma default_val_has_ty : forall t, fo_ok t -> has_ty (default_val t) t.
 Proof.
   induction t; cbn; intros H; auto; try contradiction.
   - split; [reflexivity|]. split; [apply Z.le_refl | apply Z.pow_pos_nonneg; [reflexivity | now apply Z.lt_le_incl]].
-  - destruct H as [_ He]. intros k. now apply IHt2.
+  - destruct H as [_ He]. intros k. destruct (key_sortb k t1); [now apply IHt2 | reflexivity].
 Qed.
 Lemma wf_interp_inhabited : exists I, wf_interp I.
 Proof.
@@ -283,8 +301,9 @@ Definition vlt (a b : value) : value :=
 
 Definition vbool (v : value) : bool := match v with VBool b => b | _ => false end.
 
-(* array value: default, then (index, value) pairs; later pairs do not override earlier ones
-   (pySMT keeps at most one pair per index) *)
+(* array value: default (on the index sort given by the operator's payload; [junk] outside it),
+   then (index, value) pairs; later pairs do not override earlier ones (pySMT keeps at most one
+   pair per index) *)
 Fixpoint arr_assign (f : key -> value) (l : list value) : key -> value :=
   match l with
   | i :: v :: r =>
@@ -324,7 +343,7 @@ Definition op_sem (I : interp) (o : op) (args : list value) : value :=
   | OStr k, _ => strop_sem k args
   | OSelect, [VArr f; i] => f (to_key i)
   | OStore, [VArr f; i; v] => VArr (fun k => if key_eq_dec k (to_key i) then v else f k)
-  | OArrayValue _, d :: assigns => VArr (arr_assign (fun _ => d) assigns)
+  | OArrayValue it, d :: assigns => VArr (arr_assign (fun k => if key_sortb k it then d else junk) assigns)
   | ODiv, [a; b] => vdiv I a b
   | OPow, [a; b] => vpow a b
   | OBVToNat, [VBV _ x] => VInt x
